@@ -746,12 +746,23 @@ def main():
         os.makedirs(rdir, exist_ok=True)
         lib = build_shared_lib()
         byf = {}
+        undecided = []
         for o in failed:
             byf.setdefault(o["function"], []).append(o)
         for f, os_ in sorted(byf.items()):
             wit = None
             try:
                 wit = numeric_witness(f, lib) if (lib and re.fullmatch(r"vnaconv_[a-z]to([a-z]|zi)", f)) else None
+                if wit is None and lib and all(" path=" in o["obligation"] for o in os_):
+                    # every failing obligation lies on a data-dependent path of an n-port function: it counts only
+                    # with an input of the real code that breaks the relation (an infeasible path proves nothing)
+                    wit = nport.path_witness_on_real_code(f, lib)
+                    if wit is None:
+                        for o in os_:
+                            o["ok"] = None
+                            o["residual"] = "obligation fails on a data-dependent path (%s) and no sampled input of the real code breaks the relation: undecided" % o["obligation"]
+                        undecided.append(f)
+                        continue
                 if wit is None and lib:
                     for o in os_:
                         if o.get("dom_witness"):
@@ -766,6 +777,8 @@ def main():
                                verifier="slvc (sympy %s)" % sp.__version__), fp, indent=1)
             vio_lines.append("VIOLATION property=C04 replay=%s obligation=%s:%s%s" % (
                 path, f, os_[0]["obligation"], "" if wit else " no-failing-input-found"))
+    infra = [o for o in obs if o["ok"] is None]
+    failed = [o for o in obs if o["ok"] is False]
     ev = dict(
         property_id="C04", tier=a.tier, seed=int(os.environ.get("VERIF_SEED", "0") or 0), level="proof",
         coverage=dict(
